@@ -160,11 +160,17 @@ def snapshot(obj):
     return ("py", repr(obj))
 
 
+# optional hook (C15): rewrite the keyword arguments (carrier types) just before the call
+KW_TRANSFORM = None
+
+
 def call_impl(fn, kwargs):
     """Call fn(**kwargs) on deep copies' originals; report canonical outcome and whether the
     caller's arguments were modified."""
     import warnings
 
+    if KW_TRANSFORM is not None:
+        kwargs = KW_TRANSFORM(dict(kwargs))
     before = {k: snapshot(v) for k, v in kwargs.items()}
     try:
         with warnings.catch_warnings():
